@@ -188,6 +188,46 @@ def handle (p : List Sexp) : String :=
           | .native => answer (runeStr (some s))
           | .rm t => answer (runeStr (decodeRune t s))
         | none => answer "bad-case"
+      | "sqlintro", [s] =>
+        match s.bytes? with
+        | some s =>
+          let s := nats s
+          match cs with
+          | .native => answer (resStr (.ok s))
+          | .rm t => ans (resStr (decodeI t s)) (resStr (decode t s)) "decode_unguarded"
+        | none => answer "bad-case"
+      | "sqlconv", [s] =>
+        match s.bytes? with
+        | some s =>
+          let s := nats s
+          match cs with
+          | .native =>
+            answer ("conv=" ++ resStr (.ok s) ++ " hex=" ++ resStr (.ok s) ++ " back=" ++ resStr (.ok s))
+          | .rm t =>
+            -- the engine keeps the *encoded* bytes as the value of CONVERT(… USING cs) and HEX encodes again
+            let r := match replace t s with | .ok b => b | _ => []
+            let impl := "conv=" ++ resStr (.ok r) ++ " hex=" ++ resStr (encodeI t r []) ++ " back=" ++ resStr (.ok r)
+            let spec := match replaceSpec t s with
+              | .ok b => "conv=" ++ resStr (decode t b) ++ " hex=" ++ resStr (.ok b) ++ " back=" ++ resStr (decode t b)
+              | _ => "?"
+            ans impl spec "sql_convert_using_not_decoded"
+        | none => answer "bad-case"
+      | "sqlcol", [s] =>
+        match s.bytes? with
+        | some s =>
+          let s := nats s
+          let lenStr := fun (r : Res) => match r with | .ok b => toString b.length | .fail => "fail" | .crash => "crash"
+          match cs with
+          | .native =>
+            answer ("ins=ok hex=" ++ resStr (.ok s) ++ " len=" ++ toString s.length ++ " val=" ++ resStr (.ok s))
+          | .rm t =>
+            let e := encodeI t s []
+            let impl := "ins=ok hex=" ++ resStr e ++ " len=" ++ lenStr e ++ " val=" ++ resStr (.ok s)
+            let spec := match encodeSpec t s with
+              | .ok b => "ins=ok hex=" ++ resStr (.ok b) ++ " len=" ++ toString b.length ++ " val=" ++ resStr (.ok s)
+              | _ => "ins=rejected-or-replaced"
+            ans impl spec "sql_unrepresentable_stored"
+        | none => answer "bad-case"
       | "blk", [lo, hi] =>
         match lo.nat?, hi.nat? with
         | some lo, some hi =>
